@@ -459,8 +459,14 @@ def all_cases(tier: str):
     for xs in lists(DICTS, 3):
         yield {"c": "array", "f": "map", "x": xs, "arg": "k"}
         for f in ("where", "reject"):
-            for val in (None, 1, "a"):
+            for val in (None, 1, "a", False):
                 yield {"c": "array", "f": f, "x": xs, "arg": "k", "arg2": val}
+    # explicit falsy targets select by equality like any other value (pools without int/bool look-alikes of the target)
+    for pool, vals in (([{"k": 0}, {"k": 2}, {"k": None}, {"k": ""}, {"j": 0}, {"k": "0"}], (0, "", "0")), ([{"k": False}, {"k": True}, {"k": None}, {"k": "false"}, {}], (False, True))):
+        for xs in lists(pool, 3):
+            for f in ("where", "reject"):
+                for val in vals:
+                    yield {"c": "array", "f": f, "x": xs, "arg": "k", "arg2": val}
     for x in [*strings(3), *lists([1, 2, "a"], 3)]:
         for start in range(-5, 6):
             for ln in (None, 0, 1, 2, 5):
